@@ -51,6 +51,11 @@ def hostile_cases(run):
         out.append(('entity-cycle-content-%d' % k, docgen.entity_cycle(k, 'content'), 'x'))
     for d in (4, 8, 12, 16):
         out.append(('entity-fanout-%d' % d, docgen.entity_fanout(d), 'x'))
+    # the same DAG, deep, WITHOUT reading the value: building, printing and re-parsing the document must
+    # stay polynomial in the size of the DTD (every entity is checked once, not once per path)
+    for d in (24, 40, 60):
+        out.append(('entity-dag-build-%d' % d, docgen.entity_fanout(d), 'q'))
+        out.append(('entity-dag-build-content-%d' % d, docgen.entity_fanout(d).replace('<a x="&e%d;"/>' % d, '<a>&e%d;</a>' % d), 'q'))
     for n in ([1000, 10000] if not thorough else [1000, 10000, 100000]):
         out.append(('attributes-%d' % n, docgen.many_attributes(n), 'd'))
     for n in ([1000, 30000] if not thorough else [1000, 10000, 100000]):
